@@ -1492,10 +1492,13 @@ def _arg_minmax_common(
 
     if not isinstance(axis, int | type(None)):
         raise ValueError(f"`axis` must be `int` or `None`, but it's: {type(axis)}.")
-    if isinstance(axis, int) and axis >= x.ndim:
+    if isinstance(axis, int) and not -x.ndim <= axis < x.ndim:
         raise ValueError(f"`axis={axis}` is out of bounds for array of dimension {x.ndim}.")
     if x.ndim == 0:
         raise ValueError("Input array must be at least 1-D, but it's 0-D.")
+    if isinstance(axis, int) and axis < 0:
+        axis += x.ndim
+    original_ndim = x.ndim
 
     # If `axis` is None then we need to flatten the input array and memorize
     # the original dimensionality for the final reshape operation.
@@ -1544,8 +1547,14 @@ def _arg_minmax_common(
     # If `axis=None` we need to reshape flattened array into original dimensionality.
     if axis_none_original_ndim is not None:
         result = result.reshape([1 for _ in range(axis_none_original_ndim)])
+        return result if keepdims else result.squeeze()
 
-    return result if keepdims else result.squeeze()
+    # A 1-D input got one more singleton dimension, drop it again.
+    if original_ndim == 1:
+        result = result.reshape((1,))
+
+    # Only the reduced axis is removed, other axes of length one stay.
+    return result if keepdims else result.squeeze(axis)
 
 
 def matrix_transpose(x, /):
